@@ -186,7 +186,7 @@ def check_contract_premises(prog: Program, res: Result) -> None:
     res.ob(R, ok, ap.qualname, "pad = (s - size % s) % s per side", f"padding is computed as {d}", ap.where)
     aps = prog.func(f"{RS}:apply_pad_to_stride")
     c = [c for c, q in prog.calls_in(aps) if q == ap.qualname]
-    ok = len(c) == 1 and {k.arg: norm(k.value) for k in c[0].keywords} == {"image_height": "image_height", "image_width": "image_width", "max_stride": "max_stride"}
+    ok = len(c) == 1 and {k_: norm(v_) for k_, v_ in astq.bind_args(ap, c[0]).items()} == {"image_height": "image_height", "image_width": "image_width", "max_stride": "max_stride"}
     st = [s for s in walk_function(aps.node) if isinstance(s, ast.Assign) and norm(s.value) == "image.shape[-2:]"]
     ok = ok and len(st) == 1 and [norm(e) for e in st[0].targets[0].elts] == ["image_height", "image_width"]
     res.ob(R, ok, aps.qualname, "height/width taken from the last two axes in that order", "apply_pad_to_stride mixes up height and width", aps.where)
